@@ -133,11 +133,19 @@ PLAN = dict(
                "framing must parse (magic, metadata map with avro.schema = the declared JSON - itself checked with JsonGrammar!Parse - and "
                "avro.codec, sync markers, block counts).",
     level_note="Decided by the specification: CSV field splitting and the writer's quoting / escaping / terminator rule (exact text) for quote "
-               "styles Necessary / Always / Never; JSON recognition, string (un)escaping, integer values (Int64, exact), booleans, nulls, "
+               "styles Necessary / Always / Never; JSON recognition, string (un)escaping, the VALUE of every number lexeme read into an integer "
+               "column (Int8..Int64, UInt8..UInt64: mantissa x 10^exponent computed exactly on limbs - a lexeme denoting an integer in range "
+               "must decode to exactly that integer, `1E+2` = 100; pinned from the code: out of range is an error, a non-integral value of <= 15 "
+               "significant digits is truncated towards zero; every lexeme of sign x {0,1,25,9007199254740993} x {,.0,.5,.50} x "
+               "{,e0,E+2,e-1,e3} and the 64-bit extremes with exponents into every width), booleans, nulls, "
                "nesting, missing / unknown keys; float values only when the lexeme spells an integer below 10^15 ([-] int [.0*] [e[+]n]) - "
                "for all other floats only the lexical shape is decided and the round trip identity (bit pattern in = bit pattern out) is "
                "relational; Avro bytes for the fragment boolean / int / long / float / double / bytes / string / fixed / array / map / record / "
                "union with logical types date, time-millis / -micros, (local-)timestamp-millis / -micros / -nanos on their base types. "
+               "The round-trip drivers also nest children whose nulls are logical (run-end encoded values with null runs, dictionaries with "
+               "null values / null keys, the Null type) in list / large list / fixed-size list / struct / map with explicit_nulls on and off "
+               "(dictionaries are read back as their value type: tokens denote values); Avro reads run under a watchdog (a reader that does "
+               "not return is outcome `hang`).  "
                "Relational only (identity of the round trip through row tokens): float formatting (shortest round trip), decimal / temporal "
                "formatting and parsing, QuoteStyle::NonNumeric, compressed Avro blocks (codec fidelity), Avro decimal / duration / uuid / enum "
                "layouts, the CRC-64-AVRO fingerprint value (only required to be the same on every message).  Not judged: texts outside the "
